@@ -98,19 +98,15 @@ Proof.
 Qed.
 Print Assumptions C07_segments_aligned_refuted.
 
-(* A finding of the faithful model: the only place decoder.Error is looked at is the last line of
-   decodeArguments.  A request whose header map cannot be decoded under the service's options (the io
-   decoder fails) is REJECTED when an argument list follows, but ACCEPTED - with the headers not understood -
-   when the call has no arguments.  (With C01's premise the header map of a peer codec always decodes; the
-   failure arises from option pairs such as RealType = float32 / big.Float on the service side against a
-   float64 / NaN header value.) *)
-Theorem C07_header_error_dropped_refuted : forall lower io_dec io_dec_hdrs so svc hw name m,
+(* A request whose header map cannot be decoded under the service's options (the io decoder fails; e.g.
+   RealType = float32 against a float64 header value) is rejected, with or without an argument list
+   (repaired in /repo by b5ed508: before, the failure was dropped when the call had no arguments). *)
+Theorem C07_header_error_reported : forall lower io_dec io_dec_hdrs so svc hw name m,
   io_dec_hdrs (s_dec so) false hw = None -> lookup lower svc name = Some m ->
   fst (service_decode_items lower io_dec io_dec_hdrs so svc
-         [ITag t_H; IVal hw; ITag t_C; IVal (string_wire name); ITag t_z]) =
-  SDDirty {| rq_name := name; rq_headers := []; rq_method := m; rq_args := [] |}.
-Proof. exact header_error_dropped. Qed.
-Print Assumptions C07_header_error_dropped_refuted.
+         [ITag t_H; IVal hw; ITag t_C; IVal (string_wire name); ITag t_z]) = SDDecodeError.
+Proof. exact header_error_reported. Qed.
+Print Assumptions C07_header_error_reported.
 
 Theorem C07_header_error_reported_with_arguments : forall lower io_dec io_dec_hdrs so svc hw name m ws,
   io_dec_hdrs (s_dec so) false hw = None -> lookup lower svc name = Some m ->
@@ -194,16 +190,16 @@ Print Assumptions C07_response_segments_aligned.
 
 (* The envelope: id = (counter+1) & 0x7fffffff, method, params, headers.  The JSON text is an oracle:
    [J_request q] says jsoniter reads the request q it wrote back as q with generic JSON values ([jnorm]);
-   [J_value] is the second trip of one JSON-representable value into a Go type.
-   Guards ("_partial"): the method name is not empty (the codec refuses "" as an invalid request) and there
-   is no argument beyond the parameters of a non-variadic method (C07_jsonrpc_surplus_refuted). *)
+   [J_value] is the second trip of one JSON-representable value into a Go type.  Arguments beyond the
+   parameters keep their generic JSON value (029fcce).
+   Guard ("_partial"): the method name is not empty (the codec refuses "" as an invalid request). *)
 Theorem C07_jsonrpc_envelope_request_partial :
   forall lower jmarshal_req junmarshal_req jconv jnorm jconvert (jrep : gval -> Prop) (jfits : gval -> pty -> Prop),
   J_value jconv jnorm jconvert jrep jfits ->
   forall svc counter name args h m,
   name <> [] -> lookup lower svc name = Some m ->
   J_request jmarshal_req junmarshal_req jnorm (jrequest_of counter name args h) -> Forall jrep args ->
-  no_surplus m (length args) -> (m_missing m = false -> jfits_all jfits (param_types m (length args)) args) ->
+  (m_missing m = false -> jfits_args jfits (param_types m (length args)) args) ->
   let '(counter', req) := jclient_encode jmarshal_req counter name args h in
   counter' = (counter + 1)%Z /\
   jservice_decode lower junmarshal_req jconv svc req =
@@ -213,23 +209,8 @@ Theorem C07_jsonrpc_envelope_request_partial :
 Proof. intros. eapply jsonrpc_request_roundtrip; eassumption. Qed.
 Print Assumptions C07_jsonrpc_envelope_request_partial.
 
-(* one argument more than a non-variadic method takes: ServiceCodec.Decode dereferences a nil type *)
-Theorem C07_jsonrpc_surplus_refuted :
-  forall lower jmarshal_req junmarshal_req jconv jnorm jconvert (jrep : gval -> Prop) (jfits : gval -> pty -> Prop),
-  J_value jconv jnorm jconvert jrep jfits ->
-  forall svc counter name args extra h m,
-  name <> [] -> lookup lower svc name = Some m -> m_missing m = false -> m_velem m = None ->
-  length args = length (m_params m) -> Forall (fun t => t <> TSurplus) (m_params m) ->
-  J_request jmarshal_req junmarshal_req jnorm (jrequest_of counter name (args ++ extra) h) ->
-  Forall jrep (args ++ extra) -> extra <> [] ->
-  jfits_all jfits (m_params m) args ->
-  jservice_decode lower junmarshal_req jconv svc
-    (snd (jclient_encode jmarshal_req counter name (args ++ extra) h)) = JSPanic.
-Proof. intros. eapply (jsonrpc_surplus_panics lower jmarshal_req junmarshal_req (fun _ => None)); eassumption. Qed.
-Print Assumptions C07_jsonrpc_surplus_refuted.
-
 (* results: the id is echoed; nil is "no result"; one declared type takes the shaped value; several take the
-   elements (as many as were returned, at most as many as declared) *)
+   elements (as many as were returned, at most as many as declared: results beyond are ignored, 0dfe724) *)
 Theorem C07_jsonrpc_envelope_response :
   forall jmarshal_resp junmarshal_resp jconv jnorm jconvert (jrep : gval -> Prop) (jfits : gval -> pty -> Prop),
   J_value jconv jnorm jconvert jrep jfits -> J_array jnorm ->
@@ -239,25 +220,12 @@ Theorem C07_jsonrpc_envelope_response :
   match rts with
   | [] => True
   | [t] => jfits (shape vs) t
-  | _ => (2 <= length vs <= length rts)%nat /\ Forall jrep vs /\ jfits_all jfits rts vs
+  | _ => (2 <= length vs)%nat /\ Forall jrep vs /\ jfits_all jfits rts vs
   end ->
   jclient_decode junmarshal_resp jconv rts (jservice_encode jmarshal_resp id (inl (shape vs)) rh) =
   JCRes id (jnorm_h jnorm rh) (jexpected_results jconvert rts vs).
 Proof. intros. eapply jsonrpc_response_roundtrip; eassumption. Qed.
 Print Assumptions C07_jsonrpc_envelope_response.
-
-(* more results than declared return types (two or more declared): ClientCodec.Decode indexes
-   context.ReturnType out of range and panics (the hprose codec truncates instead) *)
-Theorem C07_jsonrpc_more_results_refuted :
-  forall jmarshal_resp junmarshal_resp jconv jnorm jconvert (jrep : gval -> Prop) (jfits : gval -> pty -> Prop),
-  J_value jconv jnorm jconvert jrep jfits -> J_array jnorm ->
-  forall id rts vs extra rh,
-  (2 <= length rts)%nat -> length rts = length vs -> extra <> [] ->
-  J_response jmarshal_resp junmarshal_resp jnorm (jresponse_of id (inl (GSlice (vs ++ extra))) rh) ->
-  Forall jrep vs -> jfits_all jfits rts vs ->
-  jclient_decode junmarshal_resp jconv rts (jservice_encode jmarshal_resp id (inl (GSlice (vs ++ extra))) rh) = JCPanic.
-Proof. intros. eapply jsonrpc_more_results_panics; eassumption. Qed.
-Print Assumptions C07_jsonrpc_more_results_refuted.
 
 (* errors: a protocol error keeps code and message; a PanicError keeps message and stack (data); any other
    error keeps its message; the message the caller sees is the function's own text *)
